@@ -64,6 +64,38 @@ class Ctx:
         return Ctx(top["single"], {k: (bool(b), tuple(sh)) for k, (b, sh) in top["variadic"].items()},
                    top["pytree"], args or {})
 
+    @staticmethod
+    def from_text(text, args=None):
+        """Black-box fallback (white-box memo unavailable, e.g. after an internal refactoring): axis and variadic bindings
+        parsed from print_bindings().  The only-broadcast-so-far flag of a variadic binding is not printed: the caller has to
+        evaluate both possibilities (see variants())."""
+        axes, variadics = {}, {}
+        for ln in text.splitlines():
+            if ln.startswith("The current values for each jaxtyping PyTree"):
+                break
+            if "=" in ln and not ln.startswith("The current"):
+                k, v = ln.split("=", 1)
+                v = v.strip()
+                if v.startswith("("):
+                    variadics[k] = (False, tuple(int(x) for x in v.strip("()").split(",") if x.strip()))
+                else:
+                    try:
+                        axes[k] = int(v)
+                    except ValueError:
+                        pass
+        return Ctx(axes, variadics, {}, args or {})
+
+    def variants(self):
+        """All assignments of the unprinted broadcast flags."""
+        names = sorted(self.variadics)
+        out = []
+        for mask in range(2 ** len(names)):
+            c = self.copy()
+            for i, n in enumerate(names):
+                c.variadics[n] = (bool(mask >> i & 1), self.variadics[n][1])
+            out.append(c)
+        return out
+
     def same_bindings(self, snap):
         top = snap.get("top") or {"single": {}, "variadic": {}, "pytree": {}}
         return (self.axes == top["single"]
